@@ -21,6 +21,7 @@ from pyvc.unit import unit
 from pyvc import core
 
 LEVEL = "exploration"
+STANDIN_ALWAYS_THOROUGH = True      # its large bound takes seconds: used at both tiers
 EXPLANATION = ("BOUNDED, with two small deductive units: utf8 / to_unicode decided by case analysis over the argument types (str, bytes, None pass; int, float, list, dict, "
                "bytearray, memoryview, object raise TypeError; identity on the already-right type), and a syntactic unit showing json_encode returns exactly "
                "json.dumps(value).replace('</', '<\\\\/'). The statement's substance - inverses and safety of html / urllib.parse / json - is checked on seeded generators "
